@@ -41,4 +41,16 @@ TEXTS = {
                       "correspondence run. Known finding: parse_float returns None for radix-form texts above u64::MAX (negation witness "
                       "proved, replayed on every run).",
     },
+    "C02": {
+        "design_ref": "DESIGN.md §8 C02",
+        "technique": "Lean 4 theorems about an executable model of the tokenizer (progress measure, fuel sufficiency, line-counter invariant); "
+                     "differential run + panic/hang/line-range oracle on the real loader over exhaustive short strings and mutations",
+        "level_text": "Proved for all byte strings about the model of lexer.rs: every call of next returns, tokenising terminates within "
+                      "2*len+4 calls, and every reported line (event or error) lies in [1, 1 + newlines]. The model is compared with the "
+                      "real tokenizer on error kind and line for every input of the run. Partial: the parser level is covered by the "
+                      "oracle run on the real code (catch_unwind, watchdog, line range, check_buffer vs load_buffer), not by a theorem.",
+        "level_note": "Trusted: Lean kernel; axioms propext, Classical.choice, Quot.sound; the lexer model is tied to lexer.rs only by the "
+                      "correspondence run. Known finding: stack overflow on documents nested tens of thousands of elements deep (child "
+                      "process replay on every run). Stack depth, allocator and timing are outside the model.",
+    },
 }
